@@ -19,7 +19,7 @@ CHECKS = {
             'property-based testing (Hypothesis) with size-law/permutation oracles + exhaustive enumeration of the size arithmetic on a small grid',
             'Generated images x transform chains x parameters through Util.normalize_config/execute_xforms and the real VideoReader '
             'thread_reader over a fake VideoGear; two-directional size laws, exact numpy permutation/inverse laws, box mask predicate; '
-            'the integer size arithmetic is enumerated completely for all sides and bounds up to 14 (quick) / 40 (thorough).',
+            'the integer size arithmetic is enumerated completely for all sides and bounds up to 14 (quick) / 40 (thorough); part filter_process compares the Util filter\'s process() with sequential execute_xforms.',
             'OpenCV primitives trusted for given arguments; contiguous uint8 images up to 3000 px per side.', '5 C17'),
 }
 
@@ -27,14 +27,15 @@ CHECKS['C01'] = ('simnet', 'exploration',
     'property-based testing: Hypothesis-generated topologies/behaviours/schedules/faults run on a deterministic simulated ZeroMQ network; invariant over the recorded history (wire log + process() inputs)',
     'Real ZMQSender/ZMQReceiver/MQ/Filter.run on simnet; every process() input at the joining filter is checked against the wire log: one '
     'message id per set, exactly the subscribed topics published under that id per synchronized source, one original frame at a rejoin. '
-    'Thousands of generated schedules per run including delays above the poll interval, dropped publishes and kill/restart.',
+    'Thousands of generated schedules per run including delays above the poll interval, dropped publishes and kill/restart; an origin below a balanced split/join; '
+    'part receiver_api drives bare ZMQSender/ZMQReceiver objects (recv() calls lasting seconds, clean close and come-back, forwarded ids with gaps).',
     SIMNET_NOTE, '5 C01')
 
 CHECKS['C16'] = ('hypothesis', 'exploration',
     'property-based testing (Hypothesis) against an independently written reference glob matcher; metrics collected with a real in-memory OpenTelemetry reader',
     'Generated allow-lists (absent/empty/exact/wildcards, env var or YAML file) x generated counters/histograms/gauges and value sequences through the real '
     'TelemetryRegistry + OTelLineageExporter, and through the real OpenTelemetryClient wiring with forced flush; every facet key handed to the lineage backend must '
-    'be allowed by the reference matcher, nothing at all with an empty/absent list, histogram shape/types.',
+    'be allowed by the reference matcher, nothing at all with an empty/absent list, histogram shape/types; YAML scalar allow-lists, open-ended histogram bounds, patterns that name the exported facet key.',
     'OpenTelemetry SDK trusted; lineage backend is a capturing fake; raw-subject-data export switched off.', '5 C16')
 CHECKS['C09'] = ('hypothesis', 'exploration',
     'property-based testing (Hypothesis): round-trip law plus differential against direct cv2 encode/decode',
@@ -52,7 +53,8 @@ CHECKS['C15'] = ('hypothesis', 'exploration',
     'property-based testing (Hypothesis): secret-absent predicate over captured logs, frame metadata and lineage events; masked-URI differential for single URIs',
     'Generated credentials (distinctive user token and two password tokens around RFC special characters) placed at generated positions of the configuration of every built-in '
     'filter (text, comma list, list, tuple, dict, nested, normalised records; valid configs and configs whose normalisation fails); the filter is constructed, initialised with the '
-    'real OpenFilterLineage over a capturing client, VideoIn is run over a fake VideoGear and VideoWriter over a fake WriteGear; no token may occur in any log record, meta.src or lineage event.',
+    'real OpenFilterLineage over a capturing client, VideoIn is run over a fake VideoGear and VideoWriter over a fake WriteGear; no token may occur in any log record (formatted with traceback), meta.src or lineage event; '
+    'also credentialed URIs on the sources/outputs side, ImageIn over fake cloud clients, exceptions raised from process() and rejected configurations through Filter.run.',
     'third-party libraries that could print a URI themselves are replaced by fakes; passwords obey RFC 3986 (no raw @ / whitespace).', '5 C15')
 CHECKS['C11'] = ('hypothesis', 'exploration',
     'property-based testing (Hypothesis) with constructive grammars: idempotence law, text==struct metamorphic relation, parse(render(x))==x round trip',
@@ -70,20 +72,22 @@ CHECKS['C13'] = ('hypothesis', 'exploration',
     'model-based testing: Hypothesis-generated operation histories interpreted against a list model of the records plus file-system invariants after every write',
     'Histories of write/read/read_block/seek/tell/refresh/close-reopen/external deletion over a writer and up to three followers, all four modes, file_size from 1 byte, '
     'total_size from below one file, clock steps incl. 0 and negative; every delivered record must be a whole written record in increasing order per seek epoch; after draining, '
-    'every record at or after the epoch start whose file survives must have been delivered; size budget, newest file kept, no existing file overwritten after every write.',
+    'every record at or after the epoch start whose file survives must have been delivered; size budget, newest file kept, no existing file overwritten after every write; sub-microsecond timestamps, '
+    'binary payload buffer types, a writer that writes inside a reader\'s refresh.',
     'single-threaded interleavings of one writer and its followers; flush=True; fs faults = external deletions.', '5 C13')
 CHECKS['C14'] = ('hypothesis', 'fault_enumeration',
     'fault injection + model-based testing: crash injected at each file-system step of a position save (enumerated matrix) and in Hypothesis-generated histories; list model across restarts',
     'A crash (BaseException raised from wrapped open/write/close/rename) is injected at each of 7 points of write_head for every save of a fixed skeleton (exhaustive matrix) and '
     'at generated points of generated histories, the reader is abandoned and re-created on the same head file: restart must succeed, nothing older than the last completed save '
-    'is delivered again, and across all incarnations every record whose file survives is delivered.',
+    'is delivered again, and across all incarnations every record whose file survives is delivered; crashes also before/after any directory operation of the reader and deletion of the newest closed file.',
     'rename atomic; a crash loses only un-closed/un-renamed data; clock strictly increasing.', '5 C14')
 
 CHECKS['C02'] = ('simnet', 'exploration',
     'property-based testing on a simulated network: Hypothesis-generated schedules/faults; history invariant (strictly increasing per origin incarnation) + payload round-trip against the publisher-side record + reference subscription model',
     'Real runtime on simnet with delays up to 400 ms (stale and duplicated requests), kill/stop + restart of any filter, queued requests flushed or discarded on reconnect, every '
     'subscription spec and payload kind; per consumer incarnation seq strictly increasing per origin incarnation, every delivered frame equal to what was published for its uid, '
-    'delivered topic = reference subscription model, no unsubscribed (hidden) topic ever delivered.',
+    'delivered topic = reference subscription model, no unsubscribed (hidden) topic ever delivered, wire ids per consumer never repeated or going backwards; non-contiguous (Fortran / strided) '
+    'pixel buffers through a memory-order model of the wire; part receiver_api checks the same at the bare ZMQReceiver API.',
     SIMNET_NOTE, '5 C02')
 CHECKS['C03'] = ('simnet', 'exploration',
     'property-based testing on a simulated network with a functional reference model of the pipeline (composition of the process functions); exact sequence equality per filter',
@@ -95,41 +99,46 @@ CHECKS['C03'] = ('simnet', 'exploration',
 CHECKS['C07'] = ('simnet', 'exploration',
     'property-based testing on a simulated network: invariants over the wire log (one output endpoint per message id) and the call logs (no frame twice, single id per joined set, strictly increasing)',
     'Splitter (source or relay, 2-4 balanced outputs) -> workers of generated, unequal speeds -> balanced-sources joiner, optional ?? watchers, all delay classes; every splitter id appears on exactly '
-    'one output endpoint, no frame is processed by two workers, every joiner set holds one id, joiner sequence strictly increasing.',
+    'one output endpoint, no frame is processed by two workers, every joiner set holds one id, joiner sequence strictly increasing; joiner with skipping / low-latency options, dropped publishes; '
+    'part receiver_api: a balanced ZMQReceiver fed by forwarders with overlapping shares never returns one set made of two sources.',
     SIMNET_NOTE, '5 C07')
 CHECKS['C05'] = ('simnet', 'exploration',
     'differential testing on a simulated network: the same generated case is run with and without its ephemeral consumers (link delays keyed per link) and the synchronized sinks are compared; plus wire-log invariants',
     'Publisher with 1-2 synchronized (required) consumers and 1-3 ?/?? consumers that are slow (up to 50 s per frame), stalled forever or hard-killed, optionally an ephemeral branch rejoined as an '
     'ephemeral source: synchronized sinks must see the identical sequence in both runs and finish no later than 450 ms after the run without listeners; a ?? listener never sends on a request channel; '
-    'every set an ephemeral consumer gets is complete for its subscription under one id, ids non-decreasing.',
+    'every set an ephemeral consumer gets is complete for its subscription under one id, ids non-decreasing; parts sync_beside_ephemeral (a synchronized source next to an ephemeral one on one receiver) and '
+    'mixed_receiver (per-id topic sets, lost publishes on chosen links, a subscription that matches nothing, an ephemeral stream 10x faster than the synchronized one).',
     SIMNET_NOTE + ' PUB high-water-mark drops towards a stalled listener are not modelled.', '5 C05')
 CHECKS['C04'] = ('simnet', 'exploration',
     'property-based testing on a simulated network with Hypothesis target() maximising the overrun; bound predicate per (publisher, consumer) edge + metamorphic relation (overrun independent of stall length) + queue-depth bound for N and 4N frames',
     'A synchronized consumer blocks in its k-th process() (k up to 150) for 0.5-4.8 s (or 6-9 s for the release class) as sole consumer, one of two, or behind a relay, delays < 100 ms: the '
     'number of data publishes by each publisher after its consumer stopped taking frames is <= 9, unchanged when the stall is doubled; a non-required stalled consumer is dropped after the connection timeout; '
-    'the number of sets queued towards a merely slow consumer is <= 9 at every process() call for N and 4N frames.',
+    'the number of sets queued towards a merely slow consumer is <= 9 at every process() call for N and 4N frames (a join with a slower second source is the recorded known finding).',
     SIMNET_NOTE + ' The numeric bound is checked on generated schedules, not proved.', '5 C04')
 
 CHECKS['C06'] = ('simnet', 'fault_enumeration',
     'fault injection on a simulated network: kill/restart/stall injected at scheduling steps of a reference run (sampled by Hypothesis and swept at a fixed stride); bounded-liveness probe in virtual time + ordering invariant',
     'Every filter of chain / tee / tee-rejoin / balanced topologies is hard-killed at chosen scheduling steps of a fault-free reference run and restarted after 0 / 0.3 / 2 / 7 s or never (non-required consumers), '
     'or blocks silently for 6-8 s; after the last fault event every live synchronized sink must receive a frame within 7 virtual seconds and keep receiving, a publisher must not publish while its required '
-    'output is missing, per-sink ordering must still hold and no filter may end with an exception.',
+    'output is missing, per-sink ordering must still hold and no filter may end with an exception; also ephemeral watchers and ephemeral-first multi-source consumers, re-connections where SUB and PUSH '
+    'come back at different times, and an enumerated part viewer_restarts (24 cells).',
     SIMNET_NOTE + ' Liveness is bounded liveness on sampled schedules ("never deadlocks under any fair schedule" is not established).', '5 C06')
 
 CHECKS['C08'] = ('simnet', 'fault_enumeration',
     'fault injection on a simulated network: complete enumeration of the (injection point x exit kind x 4x4 policy pair x position) matrix plus Hypothesis-generated per-filter policies/delays; reference model of the lifecycle contract over call log, wire log and socket table',
     'For every cell: shutdown() exactly once iff setup() completed, no socket of the ended filter open or bound, stop event set, run() returned for clean exits and raised the injected exception for errors, '
     'the exit is announced iff prop_exit allows it, every neighbour that received an announcement it obeys has ended (cleanly, torn down) and nobody else has, transitively; '
-    'exit_after (seconds, m:s, @time) ends a processing filter within [T, T + 0.5 s].',
+    'exit_after (seconds, m:s, @time) ends a processing filter within [T, T + 0.5 s]; exits requested from a signal-handler-like caller, exceptions during shutdown after exit(), a metrics listener on the '
+    'outputs_metrics address, and a failing MQ constructor (all sockets opened so far must be closed).',
     SIMNET_NOTE + ' Exits are injected at lifecycle points of our own Filter subclass; multi-process Runner not covered.', '5 C08')
 
 CHECKS['C18'] = ('simnet', 'fault_enumeration',
     'fault injection with a controlled thread schedule: the heartbeat thread runs as a simulator actor (threading shim, virtual time); enumerated matrix of ways to end x run length x emit cost x interval plus Hypothesis-generated cases; regular-language predicate over the captured events',
     'The real Filter.run and the real OpenFilterLineage (capturing client) for every way a sourceless filter can end (exit() in init/setup/process/shutdown, exit with exception, stop event, '
     'exception in init/setup/process/shutdown, exit_after), run lengths from 0 to many heartbeat intervals and emit costs that move the heartbeat/main-thread interleaving: events must be '
-    'START RUNNING* (COMPLETE|ABORT), one run id, COMPLETE iff run() returned normally, heartbeat thread stopped.',
-    'interleavings explored at the shim yield points (Event.wait, Lock, emit); propagated exits (need neighbours) are exercised in C08, not here.', '5 C18')
+    'START RUNNING* (COMPLETE|ABORT), one run id, COMPLETE iff run() returned normally, heartbeat thread stopped; also exits propagated from a neighbour, KeyboardInterrupt at each stage, failing fini, an earlier run on the same '
+    'emitter, unhashable / odd config values in facets, and a backend that fails on the first terminal event.',
+    'interleavings explored at the shim yield points (Event.wait, Lock, emit); multi-filter propagation chains are exercised in C08; here a propagated exit comes from one simulated neighbour.', '5 C18')
 
 PENDING = {}
 
